@@ -146,7 +146,42 @@ def _u32_saturating_add(it, p, fid, fn, t, args):
     return NotImplemented
 
 
+def _concrete_ord(name):
+    """`a < b` etc. through the std impls for references (`<&&A as PartialOrd<&B>>::lt`) on two known numbers of one type"""
+    def m(it, p, fid, fn, t, args):
+        a, b = args[0], args[1]
+        for _ in range(6):
+            if isinstance(a, absint.Ptr):
+                a = it.deref(p, a)
+            if isinstance(b, absint.Ptr):
+                b = it.deref(p, b)
+        if (isinstance(a, Int) and isinstance(b, Int) and a.ty == b.ty) or (isinstance(a, Flt) and isinstance(b, Flt)):
+            x, y = a.v, b.v
+            return absint.mkbool({"lt": x < y, "le": x <= y, "gt": x > y, "ge": x >= y}[name])
+        if isinstance(a, Variant) and isinstance(b, Variant) and a.adt == PRIM and b.adt == PRIM:
+            # std's impl for references hands over to the impl for the referents: the interpreter's own PartialOrd for Primitive
+            g = it.F.fn("bytecode::variables::ops::ord::<impl core::cmp::PartialOrd for bytecode::variables::primitive::Primitive>::" + name)
+            if g is not None:
+                pa, pb = args[0], args[1]
+                # peel references down to a pointer to the value itself
+                for _ in range(6):
+                    na = it.deref(p, pa) if isinstance(pa, absint.Ptr) else pa
+                    if isinstance(na, absint.Ptr):
+                        pa = na
+                    nb = it.deref(p, pb) if isinstance(pb, absint.Ptr) else pb
+                    if isinstance(nb, absint.Ptr):
+                        pb = nb
+                if isinstance(pa, absint.Ptr) and isinstance(pb, absint.Ptr):
+                    return ("enter", g, [pa, pb], None)
+        return NotImplemented
+    return m
+
+
 MODELS = {
+    "core::cmp::PartialOrd::lt": _concrete_ord("lt"),
+    "core::cmp::PartialOrd::le": _concrete_ord("le"),
+    "core::cmp::PartialOrd::gt": _concrete_ord("gt"),
+    "core::cmp::PartialOrd::ge": _concrete_ord("ge"),
     "core::num::<impl u32>::saturating_add": _u32_saturating_add,
     "core::num::<impl i128>::checked_abs": _int_unary("checked_abs"),
     "core::num::<impl i32>::checked_abs": _int_unary("checked_abs"),
